@@ -1,3 +1,70 @@
 import PbVerif.Lemmas.BSpline
+import PbVerif.Lemmas.Loess
+import PbVerif.Lemmas.Kernels
+/-! C05 — no input makes the compiled kernels read or write outside their arrays.
+Each theorem: under the precondition the Python callers establish, for ALL sizes and for ARBITRARY
+outcomes of the floating-point comparisons (so NaN, unsorted or repeated values cannot matter),
+every index the kernel uses is inside its array. -/
 namespace PbVerif.C05
+open PbVerif.BSpline PbVerif.Loess PbVerif.Kernels PbVerif.Lemmas
+
+/-- `_find_interval`: `knots.size = num_bases + degree + 1`, `degree < num_bases` (i.e. `num_knots ≥ 2`):
+every knot index read is `≤ num_bases < knots.size`, the result is in `[degree, num_bases)` -/
+theorem findInterval_inb (lt ge : Nat → Bool) (deg lastLeft nb : Nat) (h : deg < nb) :
+    deg ≤ (findIntervalT lt ge deg lastLeft nb).1 ∧ (findIntervalT lt ge deg lastLeft nb).1 < nb ∧
+    ∀ i ∈ (findIntervalT lt ge deg lastLeft nb).2, i ≤ nb := findIntervalT_inb lt ge deg lastLeft nb h
+/-- the loops of the model are the `while` loops: the fuel is sufficient -/
+theorem findInterval_fuel_down (lt : Nat → Bool) (deg f left : Nat) (hl : deg ≤ left) (h : left - deg + 1 ≤ f) :
+    down lt deg f left = down lt deg (left - deg + 1) left := down_fuel lt deg f left hl h
+theorem findInterval_fuel_up (ge : Nat → Bool) (nb f left : Nat) (h : nb - left + 1 ≤ f) (hl : left ≤ nb) :
+    up ge nb f left = up ge nb (nb - left + 1) left := up_fuel ge nb f left h hl
+
+/-- `_de_boor`: knot reads in `[0, knots.size)`, work/temp indices `< 2·(degree+1)` -/
+theorem deBoor_inb (deg left nb : Nat) (h1 : deg ≤ left) (h2 : left < nb) :
+    (∀ i ∈ deBoorKnotReads deg left, 0 ≤ i ∧ i < ((nb + deg + 1 : Nat) : Int)) ∧
+    (∀ i ∈ deBoorWorkTouch deg, i < 2 * (deg + 1)) :=
+  ⟨deBoorKnotReads_inb deg left nb h1 h2, deBoorWorkTouch_inb deg⟩
+
+/-- `__make_design_matrix`: every row is `degree+1` values in columns `left-degree … left < num_bases` -/
+theorem designMatrix_inb (knots : List Rat) (deg : Nat) (xs : List Rat) (h : deg < knots.length - (deg + 1)) :
+    RowsWf deg (knots.length - (deg + 1)) (designRows knots deg xs) ∧ (designRows knots deg xs).length = xs.length :=
+  designRows_wf knots deg xs h
+
+/-- `_numba_btb_bty`: writes to `ab : (degree+1) × num_bases` and `rhs : num_bases` stay inside -/
+theorem btbBty_inb (deg left nb : Nat) (h1 : deg ≤ left) (h2 : left < nb) :
+    (∀ p ∈ accRowAbWrites deg left, p.1 < deg + 1 ∧ 0 ≤ p.2 ∧ p.2 < (nb : Int)) ∧
+    (∀ i ∈ accRowRhsWrites deg left, 0 ≤ i ∧ i < (nb : Int)) :=
+  ⟨accRowAbWrites_inb deg left nb h1 h2, accRowRhsWrites_inb deg left nb h1 h2⟩
+
+/-- `_determine_fits`, arbitrary comparison outcomes, `1 ≤ total_points ≤ N` (what `loess` checks):
+all writes to `fits`, `windows`, `skips` are inside the length-N arrays … -/
+theorem determineFits_inb (o : Oracle) (n tp : Nat) (check : Bool) (hn : 1 ≤ n) :
+    (determineFits o n tp check).2.1.length ≤ n ∧ (determineFits o n tp check).1.length ≤ n ∧
+    (determineFits o n tp check).2.2.length ≤ n ∧ ∀ f ∈ (determineFits o n tp check).2.1, f < n :=
+  ⟨determineFits_count o n tp check hn, by rw [determineFits_lengths]; exact determineFits_count o n tp check hn,
+   determineFits_skips_count o n tp check hn, determineFits_fits_lt o n tp check hn⟩
+/-- … and every window it returns is exactly `total_points ≥ 1` indices inside `[0, N)`, so the slices
+`x[left:right]`, `vander_fit[:, left:right]`, the row assignment `kernels[i] = kernel` and the scalar
+reads `difference[0]`, `difference[-1]` of the three loess kernels are in bounds -/
+theorem loessWindows_inb (o : Oracle) (n tp : Nat) (check : Bool) (hn : 1 ≤ n) (htp : 1 ≤ tp) (htpn : tp ≤ n) :
+    ∀ w ∈ (determineFits o n tp check).1, 0 ≤ w.1 ∧ w.2 ≤ (n : Int) ∧ w.2 - w.1 = (tp : Int) :=
+  determineFits_windows_inb o n tp check hn htp htpn
+/-- `_fill_skips` / `_interp_inplace`: every skip range is a non-empty slice inside the data, so `x[0]`,
+`x[-1]` of the slice exist -/
+theorem fillSkips_inb (o : Oracle) (n tp : Nat) (check : Bool) (hn : 1 ≤ n) :
+    ∀ s ∈ (determineFits o n tp check).2.2, s.1 + 2 < s.2 + 1 ∧ s.2 ≤ n := determineFits_skips_inb o n tp check hn
+
+/-- `_directional_min_moving_avg` (peak_filling): any `half_window ≥ 0`, `data_len ≥ 1` -/
+theorem dirMinMovingAvg_inb (dataLen hw : Nat) (h : 1 ≤ dataLen) :
+    ∀ i ∈ dirMinMovAvgIdx dataLen hw, 0 ≤ i ∧ i < (dataLen : Int) := dirMinMovAvg_inb dataLen hw h
+/-- `_rolling_std` on data padded by `half_window` on both sides (std_distribution, fastchrom) -/
+theorem rollingStd_inb (n hw : Nat) (h : 1 ≤ n) :
+    (∀ i ∈ rollingStdDataIdx (n + 2 * hw) hw, 0 ≤ i ∧ i < ((n + 2 * hw : Nat) : Int)) ∧
+    (∀ i ∈ rollingStdSqIdx (n + 2 * hw) hw, 0 ≤ i ∧ i < ((n + 2 * hw : Nat) : Int)) :=
+  ⟨rollingStdData_inb n hw h, rollingStdSq_inb n hw h⟩
+
+/-- non-vacuity: the repaired `total_points = N` corner and a NaN-like oracle (every comparison false) -/
+example : (determineFits ⟨fun _ _ => true, fun _ _ _ => false, false⟩ 3 3 true).1 = [(0, 3), (0, 3), (0, 3)] := by decide
+example : (findIntervalT (fun _ => false) (fun _ => false) 3 9 6).2 = [3, 4] := by decide
+
 end PbVerif.C05
